@@ -130,6 +130,54 @@ class Sweep:
             return None
 
 
+def law_arguments_untouched(sw, ell, name, rng):
+    """Array calls as a user makes them: the coordinates are float64 ndarrays that the user goes on using.  A conversion
+    must leave them as they are (otherwise `f(g(p)) = p` fails for the array p the user holds), and calling it twice with
+    the same arrays must give the same answer (the direct and the composed route are compared on the SAME arrays)."""
+    g = sw.g
+    m = 7
+    lat = rng.uniform(-88, 88, m)
+    lon = rng.uniform(-180, 180, m)
+    h = rng.uniform(-1e4, 1e6, m)
+    r = g.ellipsoid_r_geocentric(ell, lat) + rng.uniform(0, 1e6, m)
+    x, y, z = g.geodetic2cart(h.copy(), lat.copy(), lon.copy(), ell)
+    za, aa = rng.uniform(1, 179, m), rng.uniform(-179, 179, m)
+    calls = [("geodetic2cart", lambda a, b, c: g.geodetic2cart(a, b, c, ell), [h, lat, lon]),
+             ("cart2geodetic", lambda a, b, c: g.cart2geodetic(a, b, c, ell), [x, y, z]),
+             ("geodetic2geocentric", lambda a, b, c: g.geodetic2geocentric(a, b, c, ell), [h, lat, lon]),
+             ("geocentric2geodetic", lambda a, b, c: g.geocentric2geodetic(a, b, c, ell), [r, lat, lon]),
+             ("geocentric2cart", g.geocentric2cart, [r, lat, lon]),
+             ("cart2geocentric", g.cart2geocentric, [x, y, z]),
+             ("ellipsoid_r_geocentric", lambda a: g.ellipsoid_r_geocentric(ell, a), [lat]),
+             ("ellipsoid_r_geodetic", lambda a: g.ellipsoid_r_geodetic(ell, a), [lat]),
+             ("geocentricposlos2cart", g.geocentricposlos2cart, [r, lat, lon, za, aa]),
+             ("great_circle_distance", g.great_circle_distance, [lat, lon, lat[::-1].copy(), lon[::-1].copy()]),
+             ("tunnel_distance", g.tunnel_distance, [lat, lon, lat[::-1].copy(), lon[::-1].copy()])]
+    for fname, fn, args in calls:
+        args = [np.array(a, dtype=np.float64) for a in args]
+        before = [a.copy() for a in args]
+        case = {"law": "arguments-untouched", "fn": fname, "ellipsoid": name, "ell": list(ell),
+                "args": [a.tolist() for a in before]}
+        r1 = sw.call("arguments-untouched", case, fn, *args)
+        if r1 is None:
+            continue
+        r1 = [np.array(v, dtype=float, copy=True) for v in (r1 if isinstance(r1, tuple) else (r1,))]
+        changed = [k for k, (a, b) in enumerate(zip(args, before)) if not np.array_equal(a, b)]
+        if changed:
+            k = changed[0]
+            sw.report("arguments-modified:" + fname,
+                      f"{fname}(..., {name}) modified the array handed in as argument {k}: it held {before[k][:3].tolist()}..., now "
+                      f"{args[k][:3].tolist()}... -- the position the caller converts back to is no longer the one it converted", case)
+            continue
+        r2 = sw.call("arguments-untouched", case, fn, *args)
+        if r2 is None:
+            continue
+        r2 = [np.asarray(v, dtype=float) for v in (r2 if isinstance(r2, tuple) else (r2,))]
+        if any(not np.array_equal(u, v, equal_nan=True) for u, v in zip(r1, r2)):
+            sw.report("repeated-call-differs:" + fname, f"two identical consecutive calls of {fname}(..., {name}) on the same arrays "
+                      f"return different values", case)
+
+
 def law_geodetic_roundtrip(sw, ell, h, lat, lon, name):
     """scalar calls: cart2geodetic(geodetic2cart(p)) = p to 1 cm / 1e-7 deg"""
     g = sw.g
@@ -397,6 +445,7 @@ def law_sweep(ctx, g, only=None):
         rr = ell[0] * (1 - ell[1] ** 2 / 2) + rng.uniform(0, 1e6, latc.size)
         for i in range(latc.size):
             law_cartesian_roundtrip(sw, ell, float(rr[i]), float(latc[i]), float(lonc[i]), name)
+        law_arguments_untouched(sw, ell, name, rng)
     # line of sight
     n = ctx.n(4000, 200000)
     r = rng.uniform(3.3e6, 7.5e6, n)
